@@ -172,21 +172,22 @@ PROPS["C11"] = {
 }
 
 PROPS["C19"] = {
-    "files": ["libs/pubsub/pubsub.go", "libs/pubsub/subscription.go", "state/txindex/kv/kv.go"],
+    "files": ["libs/pubsub/pubsub.go", "libs/pubsub/subscription.go", "state/txindex/kv/kv.go", "state/txindex/indexer_service.go"],
     "groups": [
         {"dir": "libs/pubsub",
          "quick": ["VP_C19_Pubsub_n2_k2", "VP_C19_Pubsub_n2_k3", "VP_C19_Pubsub_n2_k3_shared", "VP_C19_Pubsub_n2_k4_shared"],
          "thorough": ["VP_C19_Pubsub_n3_k2", "VP_C19_Pubsub_n3_k3_shared"]},
         {"dir": "state/txindex/kv",
-         "quick": ["VP_C19_Search_n3"],
+         "quick": ["VP_C19_Search_n3", "VP_C19_IndexerService"],
          "thorough": ["VP_C19_Search_n4"]},
     ],
     "bounds": {
         "delivery (H1)": "real pubsub.Server (its loop goroutine scheduled by the engine), n = 2 (thorough 3) subscribers with own or shared queries, buffered with capacity 1, each fast (drains after every publication) or slow (never reads); k = 2..3 (thorough 4) operations from {publish, unsubscribe}; each query's verdict on each publication symbolic in {no match, match, error}; every map-iteration order of the subscription tables",
+        "indexer service (H3)": "real txindex.IndexerService on a real EventBus and kv.TxIndex: two blocks of 0..2 transactions published as the node does; indexing of a block's own events fails or not (arbitrary per block); every committed transaction must be retrievable under its height and position",
         "transaction search (H2)": "real kv.TxIndex on a MemDB: 3 (thorough 4) transactions at heights 1..2 carrying account.number drawn from {1,2,9,10,15,100} (different digit counts), indexed by the real Index; one query of 5 shapes (closed range, upper bound only, open range, equality, height AND upper bound) with bounds from {2,10,15,50}, parsed by the real query parser; the reference answer is computed from the values; concrete values, every combination enumerated by the engine",
     },
     "stubs": ["Query = harness object with symbolic verdicts (the query language is not executed) in the pubsub entries; real parser in the search entries", "goroutines interleaved at channel operations; map iteration order is a decision"],
-    "outside": ["query-language matching against events (Query.Matches: reflect / regexp / float and time parsing over strings) and string, time and float operands in searches", "the block indexer (state/indexer/block/kv)", "the indexer service loop (state/txindex/indexer_service.go)", "unbuffered subscriptions"],
+    "outside": ["query-language matching against events (Query.Matches: reflect / regexp / float and time parsing over strings) and string, time and float operands in searches", "the block indexer (state/indexer/block/kv)", "unbuffered subscriptions"],
     "timeout_quick": 300, "timeout_thorough": 3000,
 }
 
@@ -235,10 +236,11 @@ PROPS["C09"] = {
     "groups": [
         {"dir": "light",
          "quick": ["VP_C09_Verify_adjacent", "VP_C09_Verify_nonadjacent", "VP_C09_TrustingAdversarial_m4_n3", "VP_C09_TrustingAdversarial_m7_n3",
-                   "VP_C09_Detector_w1", "VP_C09_Detector_w2", "VP_C09_Detector_w3", "VP_C09_Backwards", "VP_C09_ForwardFaultyPrimary"],
+                   "VP_C09_Detector_w1", "VP_C09_Detector_w2", "VP_C09_Detector_w3", "VP_C09_Backwards", "VP_C09_ForwardFaultyPrimary", "VP_C09_LaggingWitness"],
          "thorough": ["VP_C09_TrustingAdversarial_m7_n4"]},
     ],
     "bounds": {
+        "lagging witness (H3b)": "the real compareNewHeaderWithWitness against a witness without the target height whose latest blocks (heights 3, then 4 after the wait) carry times at arbitrary offsets -3..3 s from the primary header's time: conflict exactly when one of them is not before it",
         "forward with a faulty primary (H4)": "real Client.VerifyLightBlockAtHeight in skipping mode from trusted height 1 to height 3 across a complete validator-set replacement (pivot 2 needed); the primary's first three answers each genuine / forged (well-formed, signed by a made-up set) / future-dated / no response; two honest witnesses; what is returned and what enters the trusted store must be the genuine blocks",
         "verifier (H1)": "light.Verify on really signed headers of a 3-validator chain: trusted header at height 2, new header adjacent or two heights later, its time one of {before, equal, +1 s, +50 s} relative to the trusted one, `now` symbolic over 600 s, trusting period 100/300 s, clock drift 0/10 s, new validator set equal to / sharing 2 / sharing 1 member with the trusted set, one perturbation (chain id, validators hash, exactly-2/3 commit, 1/3 commit, height not later) or none: accepted exactly when the rule of the statement holds",
         "adversarial trusting step": "trusted set of m = 4/7 equal validators, forged light block whose validator list is any n = 3 (thorough 4) entries from the trusted members or strangers (repetitions included), all genuinely signing: accepted only with more than 1/3 of *distinct* trusted members",
